@@ -131,7 +131,7 @@ Fixpoint all_iterables (args : list val) : option (list (list val)) :=
 Fixpoint enumerate_loop (xs : list val) (start i : Z) : list val :=
   match xs with
   | [] => []
-  | x :: r => VTuple [VInt (wrap64 (start + i)); x] :: enumerate_loop r start (i + 1)
+  | x :: r => VTuple [VInt (start + i); x] :: enumerate_loop r start (i + 1)  (* MakeInt(start).Add(MakeInt(i)): exact *)
   end.
 
 (* any / all: first element deciding the answer stops the iteration *)
@@ -168,7 +168,8 @@ Definition repeat_impl {A} (xs : list A) (n : Z) : outcome (list A) :=
   match xs with
   | [] => Ok []
   | _ =>
-      if negb (in_int32 n) then Err          (* AsInt32 fails: "repeat count too large" *)
+      if negb (in_int32 n) then               (* AsInt32 fails *)
+        (if n <? 0 then Ok [] else Err)        (* negative: like zero; else "repeat count too large" *)
       else if n <? 1 then Ok []
       else
         (* bits.Mul(uint(len), uint(i)): hi word zero because both < 2^32 here; sz = len * i *)
@@ -176,7 +177,8 @@ Definition repeat_impl {A} (xs : list A) (n : Z) : outcome (list A) :=
         if sz >=? max_alloc then Err else Ok (repeat_bytes xs (Z.to_nat n))
   end.
 
-(* x * y and y * x for x a string / bytes / list / tuple and y an int; x + y for two of a kind *)
+(* x * y and y * x for x a string / bytes / list / tuple and y an int; x + y for two strings,
+   two lists or two tuples (Binary has no PLUS case for bytes: "unknown binary op") *)
 Definition binary_star (x y : val) : outcome val :=
   let rep {A} (mk : list A -> val) (xs : list A) (n : Z) : outcome val :=
       match repeat_impl xs n with Ok l => Ok (mk l) | Err => Err | Panic => Panic | OutOfFuel => OutOfFuel end in
@@ -191,7 +193,6 @@ Definition binary_star (x y : val) : outcome val :=
 Definition binary_plus (x y : val) : outcome val :=
   match x, y with
   | VStr a, VStr b => Ok (VStr (a ++ b))
-  | VBytes a, VBytes b => Ok (VBytes (a ++ b))
   | VList a, VList b => Ok (VList (a ++ b))
   | VTuple a, VTuple b => Ok (VTuple (a ++ b))
   | _, _ => Err
